@@ -19,8 +19,12 @@ from . import extract
 from .engine import FunctionRun, StaleContract, exc_matches as engine_exc_matches
 from .ops import Unsupported
 
-Z3_TIMEOUT_MS = int(os.environ.get('PYVC_Z3_TIMEOUT_MS', '15000'))
-CVC5_TIMEOUT_MS = int(os.environ.get('PYVC_CVC5_TIMEOUT_MS', '20000'))
+# Budgets are RESOURCE limits (deterministic: the verdict does not depend on machine load); the wall-clock values
+# are only backstops.  ~400k z3 rlimit units per second on an idle core of this sandbox.
+Z3_RLIMIT = int(os.environ.get('PYVC_Z3_RLIMIT', '6000000'))
+Z3_TIMEOUT_MS = int(os.environ.get('PYVC_Z3_TIMEOUT_MS', '150000'))
+CVC5_RLIMIT = int(os.environ.get('PYVC_CVC5_RLIMIT', '400000'))
+CVC5_TIMEOUT_MS = int(os.environ.get('PYVC_CVC5_TIMEOUT_MS', '60000'))
 CVC5_BIN = '/usr/bin/cvc5'
 
 _MODULE_CACHE = {}
@@ -43,13 +47,26 @@ def module_loader(repo):
 # ------------------------------------------------------------------------------------------------ solving
 def _solve_one(job):
     """Worker: returns (index, verdict, backend, seconds, reason)."""
-    idx, smt2, expect = job
+    idx, smt2, expect, smt2_filtered = job
     t0 = time.time()
     verdict, backend, reason = 'unknown', 'z3', ''
+    if smt2_filtered is not None:
+        # first attempt on the relevance-filtered hypothesis set (sound for `unsat`; any other answer is discarded)
+        try:
+            ctx = z3.Context()
+            s = z3.Solver(ctx=ctx)
+            s.set('timeout', Z3_TIMEOUT_MS)
+            s.set('rlimit', Z3_RLIMIT // 2)
+            s.from_string(smt2_filtered)
+            if str(s.check()) == 'unsat':
+                return idx, 'unsat', 'z3-filtered', time.time() - t0, ''
+        except Exception:  # noqa
+            pass
     try:
         ctx = z3.Context()
         s = z3.Solver(ctx=ctx)
-        s.set('timeout', Z3_TIMEOUT_MS if expect == 'unsat' else 2500)
+        s.set('timeout', Z3_TIMEOUT_MS)
+        s.set('rlimit', Z3_RLIMIT if expect == 'unsat' else 600000)
         s.from_string(smt2)
         r = s.check()
         verdict = str(r)
@@ -63,7 +80,7 @@ def _solve_one(job):
                 fh.write('(set-logic ALL)\n' + smt2)
                 path = fh.name
             try:
-                out = subprocess.run([CVC5_BIN, '--strings-exp', '--tlimit=%d' % CVC5_TIMEOUT_MS, path],
+                out = subprocess.run([CVC5_BIN, '--strings-exp', '--tlimit=%d' % CVC5_TIMEOUT_MS, '--rlimit=%d' % CVC5_RLIMIT, path],
                                      capture_output=True, text=True, timeout=CVC5_TIMEOUT_MS / 1000.0 + 10)
                 first = (out.stdout.strip().splitlines() or [''])[0].strip()
                 if first in ('sat', 'unsat'):
@@ -80,7 +97,13 @@ def _solve_one(job):
 def discharge(obligations, nproc=None):
     jobs = []
     for i, ob in enumerate(obligations):
-        jobs.append((i, ob.smt2(), ob.expect))
+        filt = None
+        if ob.expect == 'unsat' and len(ob.hyps) > 40:
+            try:
+                filt = ob.smt2(filtered=True)
+            except Exception:  # noqa
+                filt = None
+        jobs.append((i, ob.smt2(), ob.expect, filt))
     nproc = nproc or min(16, os.cpu_count() or 4)
     results = [None] * len(jobs)
     if not jobs:
